@@ -16,6 +16,8 @@
 (*          (0, 8, 2^31-1, 2^31, 2^32+8, factored offsets whose product    *)
 (*          leaves i32 / i64, args_size 2^32), register rules, remember /  *)
 (*          restore, expressions, set_loc, nop                             *)
+(*  "regs": offset / restore / rule instructions on registers 0, 62..65,   *)
+(*          the boundary of the one-byte opcode forms                      *)
 (* Factors are given in the cfg as naturals: Cafs \subseteq 0..65535; the   *)
 (* cfg syntax has no negative numbers, so Dafs holds daf + 1000.           *)
 (***************************************************************************)
@@ -70,7 +72,21 @@ Data == {
   [op |-> "args_size", v |-> B(16)], [op |-> "args_size", v |-> P32m1], [op |-> "args_size", v |-> P32],
   [op |-> "set_loc", a |-> <<0, 32, 0, 0, 0, 0, 0, 0>>], [op |-> "nop"] }
 
-Alphabet == IF Slice = "code" THEN Code ELSE Data
+(* register numbers at the boundary of the one-byte forms (DW_CFA_offset /     *)
+(* DW_CFA_restore hold registers 0..63 in the opcode): the writer has to pick  *)
+(* the extended form from 64 on.  Input short forms only exist for r < 64.     *)
+Regs == {
+  Adv(0, B(2)),
+  [op |-> "offset", r |-> 0, v |-> B(3)], [op |-> "offset", r |-> 62, v |-> B(2)], [op |-> "offset", r |-> 63, v |-> B(2)],
+  [op |-> "offset_extended", r |-> 63, v |-> B(4)], [op |-> "offset_extended", r |-> 64, v |-> B(2)],
+  [op |-> "offset_extended", r |-> 65, v |-> B(2)], [op |-> "offset_extended_sf", r |-> 64, v |-> I(-1)],
+  [op |-> "restore", r |-> 0], [op |-> "restore", r |-> 63],
+  [op |-> "restore_extended", r |-> 0], [op |-> "restore_extended", r |-> 63], [op |-> "restore_extended", r |-> 64],
+  [op |-> "restore_extended", r |-> 65],
+  [op |-> "val_offset", r |-> 64, v |-> B(2)], [op |-> "undefined", r |-> 64], [op |-> "same_value", r |-> 63],
+  [op |-> "register", r |-> 64, s |-> 63] }
+
+Alphabet == CASE Slice = "code" -> Code [] Slice = "regs" -> Regs [] OTHER -> Data
 
 (* the CIE establishes CFA = r7 + 8 and the return address rule *)
 CieIns == <<[op |-> "def_cfa", r |-> 7, v |-> B(8)], [op |-> "offset", r |-> 16, v |-> B(1)]>>
